@@ -219,7 +219,7 @@ def run(ctx):
             n, trace = mem_family(ctx, fam, kd, target="disk")
             total += n
     pinned_designs(ctx)
-    nrand = 3000 if ctx.quick else 40000
+    nrand = 3000 if ctx.quick else 12000
     total += random_runs(ctx, "mem", nrand, 3, 3, 2, kd, "m332")
     total += random_runs(ctx, "mem", nrand, 2, 3, 1, kd, "m231")
     total += random_runs(ctx, "disk", nrand, 2, 2, 2, kd, "d222")
@@ -229,7 +229,7 @@ def run(ctx):
     total += random_runs(ctx, "dyn", nrand // 4, 2, 3, 1, kd, "y231")
     # long histories on real parallel threads (no schedule): windows that lie between sched points are only
     # reachable this way; 4 tasks x 20 operations, judged by the same monitor
-    nstress = 150 if ctx.quick else 2500
+    nstress = 150 if ctx.quick else 700
     for target, keys in [("mem", 2), ("disk", 1), ("disk", 2), ("dyn", 2), ("dyn", 3)]:
         total += random_runs(ctx, target, nstress, 4, 20, keys, kd, f"stress_{target}{keys}")
     ctx.cov["traces_validated_against_impl"] = total
